@@ -47,21 +47,21 @@ type Dyn struct {
 	Raw     any
 	C       dynContainer
 	Values  func() []any
-	Keys    func() []any              // maps and trees only
-	Get     func(k any) (any, bool)   // maps and trees only
-	GetKey  func(v any) (any, bool)   // bidirectional maps only
+	Keys    func() []any            // maps and trees only
+	Get     func(k any) (any, bool) // maps and trees only
+	GetKey  func(v any) (any, bool) // bidirectional maps only
 	JSON    jsonAPI
-	Ordered bool                      // enumeration order is defined (all but HashSet, HashMap, HashBidiMap)
-	Mutate  func(c *core.Ctx)         // one random mutating call (recorded in the trace)
-	Grow    func(c *core.Ctx)         // one inserting call
-	Fresh   func() *Dyn               // same kind and configuration, newly constructed
-	Take    func() (any, bool)        // stacks, queues, heaps: Pop/Dequeue
-	Walk    func() []any              // full forward iterator walk, (index|key, value) pairs; nil for hash containers
-	PutAny  func(vs []any)            // insert decoded elements in order (for building expected states): Add/Push/Enqueue/Put pairs
-	Cap     int                       // ring capacity
-	ElemOf  func(r *core.R) any       // a random element (value containers) for workloads
-	JSONArr bool                      // serializes as an array (value containers) / object (key-value containers)
-	Reads   func() []ReadOp           // read-only catalogue with sequential answers (C18)
+	Ordered bool                // enumeration order is defined (all but HashSet, HashMap, HashBidiMap)
+	Mutate  func(c *core.Ctx)   // one random mutating call (recorded in the trace)
+	Grow    func(c *core.Ctx)   // one inserting call
+	Fresh   func() *Dyn         // same kind and configuration, newly constructed
+	Take    func() (any, bool)  // stacks, queues, heaps: Pop/Dequeue
+	Walk    func() []any        // full forward iterator walk, (index|key, value) pairs; nil for hash containers
+	PutAny  func(vs []any)      // insert decoded elements in order (for building expected states): Add/Push/Enqueue/Put pairs
+	Cap     int                 // ring capacity
+	ElemOf  func(r *core.R) any // a random element (value containers) for workloads
+	JSONArr bool                // serializes as an array (value containers) / object (key-value containers)
+	Reads   func() []ReadOp     // read-only catalogue with sequential answers (C18)
 	// argument-slice aliasing probes (C16): each builds a NEW container from /
 	// adds a caller-owned slice and returns the container plus a function that
 	// scribbles over the caller's slice.
@@ -289,10 +289,16 @@ func newDyn[T comparable, V comparable](kind string, d *Dom[T], dv *Dom[V], cfg 
 		return dynFromList(kind, l, nil, l, d, fresh, func(vs ...T) *Dyn { x := arraylist.New[T](vs...); return dynFromList(kind, x, nil, x, d, nil, nil) })
 	case "SinglyLinkedList":
 		l := singlylinkedlist.New[T]()
-		return dynFromList(kind, l, l, l, d, fresh, func(vs ...T) *Dyn { x := singlylinkedlist.New[T](vs...); return dynFromList(kind, x, x, x, d, nil, nil) })
+		return dynFromList(kind, l, l, l, d, fresh, func(vs ...T) *Dyn {
+			x := singlylinkedlist.New[T](vs...)
+			return dynFromList(kind, x, x, x, d, nil, nil)
+		})
 	case "DoublyLinkedList":
 		l := doublylinkedlist.New[T]()
-		return dynFromList(kind, l, l, l, d, fresh, func(vs ...T) *Dyn { x := doublylinkedlist.New[T](vs...); return dynFromList(kind, x, x, x, d, nil, nil) })
+		return dynFromList(kind, l, l, l, d, fresh, func(vs ...T) *Dyn {
+			x := doublylinkedlist.New[T](vs...)
+			return dynFromList(kind, x, x, x, d, nil, nil)
+		})
 	case "HashSet":
 		s := hashset.New[T]()
 		return dynFromSet(kind, s, s, d, "", false, fresh, func(vs ...T) *Dyn { x := hashset.New[T](vs...); return dynFromSet(kind, x, x, d, "", false, nil, nil) })
@@ -304,7 +310,10 @@ func newDyn[T comparable, V comparable](kind string, d *Dom[T], dv *Dom[V], cfg 
 		})
 	case "LinkedHashSet":
 		s := linkedhashset.New[T]()
-		return dynFromSet(kind, s, s, d, "", true, fresh, func(vs ...T) *Dyn { x := linkedhashset.New[T](vs...); return dynFromSet(kind, x, x, d, "", true, nil, nil) })
+		return dynFromSet(kind, s, s, d, "", true, fresh, func(vs ...T) *Dyn {
+			x := linkedhashset.New[T](vs...)
+			return dynFromSet(kind, x, x, d, "", true, nil, nil)
+		})
 	case "ArrayStack":
 		s := arraystack.New[T]()
 		return dynFromStack(kind, s, s, d, fresh)
